@@ -164,6 +164,10 @@ impl Monitor for C08 {
             let ast = match k % 4 {
                 0 | 1 => gen_shortcut(&mut rng, &cfg),
                 2 => gen_shortcut(&mut rng, &cfg2),
+                // back-references make the way a span was matched (which alternative set which group)
+                // observable, which is what the non-backtracking operators must preserve
+                _ if k % 16 == 3 => super::refprops::gen_backref_shape(&mut rng),
+                _ if k % 16 == 7 => gen_anchor_giveback(&mut rng),
                 _ => gen_pattern(&mut rng, &cfg),
             };
             let fl = FLAG_SUBSETS[rng.below(FLAG_SUBSETS.len())];
